@@ -10,6 +10,7 @@ LEVEL = "proof"
 COQ_FILES = ["Tie/C10_defs.v", "Tie/C10_tie.v", "Props/C10_props.v"]
 PROPS_FILES = ["C10_props.v"]
 TRUSTED_BASE = [
+    "vlib/symex.py (symbolic execution of the translated Python subset on the ast: the translator reads value / outcome trees, so local names, intermediates, helpers and the form of branches do not matter; its assumptions - pure expressions, opaque calls, no aliasing writes, try handlers not modelled - are listed in DESIGN.md 12.7; fail-closed)",
     "py2gallina unit 'crop/pad' (center_crop bounds and guard, pad_tensor's list as passed to F.pad, complex_center_crop start)",
     "hand-written model coq/Model/C10.v (window, pad1, crop1, crop_nd, pad_nd, F.pad pair convention), tied by exact correspondence on integer tensors",
     "torch indexing / torch.nn.functional.pad(mode='constant') / numpy slicing",
